@@ -12,7 +12,8 @@
      utf8 <hex>            -> true|false
      sqline <word>*        -> <hex>                   join_sp (map sq ws)
      inquote <hex>         -> true|false              in_quote_after l false
-     pwdkey                -> <hex> *)
+     pwdkey                -> <hex>
+     consts                -> <separator bytes> <quote byte>   (the regenerated literals of the tokenizer) *)
 let st = ref (setup_env [])
 let cd = ref []
 let hexes l = String.concat " " (List.map hex_of_bytes l)
@@ -37,4 +38,5 @@ let () = serve (function
   | "sqline" :: ws -> hex_of_bytes (join_sp (List.map (fun w -> sq (bytes_of_hex w)) ws))
   | ["inquote"; x] -> string_of_bool (in_quote_after (bytes_of_hex x) false)
   | ["pwdkey"] -> hex_of_bytes pwd_key
+  | ["consts"] -> hex_of_bytes ts_sep_bytes ^ " " ^ hex_of_bytes [ts_quote]
   | _ -> "BAD-REQUEST")
